@@ -210,12 +210,11 @@ def runAigerCase (line : String) : String × String :=
   let l := parseTy (field fs "ty")
   let mode := field fs "mode"
   let ls := field fs "ls" == "1"
-  let full := dataField (field fs "d")
   -- scale cases: `cut=<n>` keeps the first `n` bytes, `post=<data field>` is appended after the cut
+  let post := if field fs "post" == "" then [] else dataFieldOnto (field fs "post") []
   let full := match (field fs "cut").toNat? with
-    | some n => full.take n
-    | none => full
-  let full := if field fs "post" == "" then full else full ++ dataField (field fs "post")
+    | some n => dataFieldTakeOnto (field fs "d") n post
+    | none => dataFieldOnto (field fs "d") post
   let (data, fault) := match (field fs "k").toNat? with
     | some k => (full.take k, true)
     | none => (full, false)
